@@ -73,6 +73,8 @@ type Options struct {
 	FaultCommits, FaultSets bool
 	// LateCommits makes commit gates sort last (a flush stays in flight by default).
 	LateCommits bool
+	// CommitDelays: see VDB.CommitDelays.
+	CommitDelays []time.Duration
 	// LatePuts does the same for non-transactional writes (pipeline / connector instance puts).
 	LatePuts bool
 	// NoGateStore leaves store writes ungated (E2 style use).
@@ -244,6 +246,7 @@ func (s *Stack) Arm() {
 	s.DB.FaultCommits = s.Opt.FaultCommits
 	s.DB.LateCommits = s.Opt.LateCommits
 	s.DB.LatePuts = s.Opt.LatePuts
+	s.DB.CommitDelays = s.Opt.CommitDelays
 	s.DB.FaultSets = s.Opt.FaultSets
 	if s.Opt.FaultSets {
 		var keys []string
